@@ -20,12 +20,16 @@ Request line:  `id enc <op> key=value …`
     cmp_tsk      as cmp_gglwe without `pt`: compressed tensor key (the model derives the tensor secret from `sk`)
     cmp_brk      bits n b kxe size rank dnum sk=<cols> sklwe=<ints> top gseeds=<4 words;…> sub=<words;…> seeds child es:
                  compressed blind-rotation key, all GGSWs; answer as cmp_ggsw over all GGSWs in order
+    bundle_order layout=<cbt|bdd> ksg=<0|1> gal=<Galois elements, any order> atkw atke brkw brke tskw tske ksgw ksge kslw ksle
+                 (`…w` mask words, `…e` error polynomials one sub-key of that kind consumes): answer
+                 `<name:first mask word:mask words:first error polynomial:error polynomials;…>` in encryption order
 Answer line:   `id <ciphertext columns> <decrypted plaintext column>` (enc ops),
                `id <columns>` (stream ops), `id panic` when the model reaches a Rust panic.
 -/
 import Poulpy.Driver.Util
 import Poulpy.Model.Core.Enc
 import Poulpy.Model.Core.EncMat
+import Poulpy.Model.Core.Bundle
 
 namespace Drv.Enc
 open Drv
@@ -170,6 +174,23 @@ def handle (ts : List String) : String :=
           (kvPolys ts "sk") expand [] (kvPolys ts "es") with
       | none => "panic"
       | some cells => showCells b n rank ((rank + 1) * dnum) expand cells
+    | "bundle_order" =>
+      let gal := kvInts ts "gal"
+      let order := if (kv ts "layout").getD "" == "bdd" then Core.bddOrder (kvNat ts "ksg" != 0) gal else Core.cbtOrder gal
+      let use : Core.SubKey → Core.Use := fun k => match k with
+        | .atk _ => ⟨kvNat ts "atkw", kvNat ts "atke"⟩
+        | .brk => ⟨kvNat ts "brkw", kvNat ts "brke"⟩
+        | .tsk => ⟨kvNat ts "tskw", kvNat ts "tske"⟩
+        | .ksGlwe => ⟨kvNat ts "ksgw", kvNat ts "ksge"⟩
+        | .ksLwe => ⟨kvNat ts "kslw", kvNat ts "ksle"⟩
+      let name : Core.SubKey → String := fun k => match k with
+        | .atk p => s!"atk[{p}]"
+        | .brk => "brk"
+        | .tsk => "tsk"
+        | .ksGlwe => "ks_glwe"
+        | .ksLwe => "ks_lwe"
+      ";".intercalate ((Core.segments use order 0 0).map (fun s =>
+        s!"{name s.1}:{s.2.1}:{s.2.2.1}:{s.2.2.2.1}:{s.2.2.2.2}"))
     | "masks" =>
       -- `cells` consecutive cells, each `rank` mask columns drawn from the same source in order
       let rank := kvNat ts "rank"
